@@ -177,8 +177,9 @@ def unscale(v, scale):
     return int(f) if f.denominator == 1 else f
 
 
-def bb_units(o, scale):
-    return tuple(unscale(c, scale) for c in o.bbox)
+def bb_units(o, scale, dx=0):
+    b = tuple(unscale(c, scale) for c in o.bbox)
+    return (b[0] + dx, b[1], b[2] + dx, b[3]) if dx else b
 
 
 def line_items(line, gid):
@@ -211,11 +212,11 @@ def project(cont, chars, items, scale):
     return tuple(out)
 
 
-def proj_groups(cont, scale):
+def proj_groups(cont, scale, dx=0):
     """the group hierarchy: nested ("LRTB"|"TBRL", bb, (child, child)) / ("b", index)"""
     def one(g):
         if isinstance(g, LTTextGroup):
-            return ("TBRL" if isinstance(g, LTTextGroupTBRL) else "LRTB", bb_units(g, scale), tuple(one(c) for c in g))
+            return ("TBRL" if isinstance(g, LTTextGroupTBRL) else "LRTB", bb_units(g, scale, dx), tuple(one(c) for c in g))
         return ("b", g.index)
     return tuple(one(g) for g in (cont.groups or ()))
 
@@ -281,7 +282,45 @@ def pdf_realisable(rec):
     return rec["wh"] == "page" and all(it["t"] != "e" or it["k"] != "c" for it in rec["page"])
 
 
-def content_of(rec, scale):
+# ---- page environments: /Rotate and a media box that is not square.  The page as it is seen (after the rotation) is
+# ENV_W x ENV_H units; the arrangement is moved ENV_DX units to the left so that it fits the narrow page and reaches
+# beyond the short side (y up to 400 > 320): a page box taken from the unrotated media box would leave it outside.
+ENV_DX = 200
+ENV_W, ENV_H = 320, 1024
+ENV_ROTATIONS = (0, 90, 180, 270)
+
+
+def env_eligible(head):
+    return head["wh"] == "page" and all(ENV_DX <= it["bb"][0] and it["bb"][2] <= 512 and 0 <= it["bb"][1] and it["bb"][3] <= 512
+                                        for it in head["page"])
+
+
+def env_page(rotate, scale):
+    """-> (MediaBox, ctm of PDFPageInterpreter.process_page, page box as seen)"""
+    w, h = pt(ENV_W, scale), pt(ENV_H, scale)
+    mb = (0, 0, h, w) if rotate in (90, 270) else (0, 0, w, h)
+    (x0, y0, x1, y1) = mb
+    ctm = {90: (0, -1, 1, 0, -y0, x1), 180: (-1, 0, 0, -1, x1, y1), 270: (0, 1, -1, 0, y1, -x0)}.get(rotate, (1, 0, 0, 1, -x0, -y0))
+    return mb, ctm, (0, 0, w, h)
+
+
+def mat_mult(m1, m0):
+    (a1, b1, c1, d1, e1, f1) = m1
+    (a0, b0, c0, d0, e0, f0) = m0
+    return (a0 * a1 + c0 * b1, b0 * a1 + d0 * b1, a0 * c1 + c0 * d1, b0 * c1 + d0 * d1,
+            a0 * e1 + c0 * f1 + e0, b0 * e1 + d0 * f1 + f0)
+
+
+def mat_inv(m):
+    (a, b, c, d, e, f) = (Fraction(v) for v in m)
+    det = a * d - b * c
+    ia, ib, ic, id_ = d / det, -b / det, -c / det, a / det
+    return (ia, ib, ic, id_, -(e * ia + f * ic), -(e * ib + f * id_))
+
+
+def content_of(rec, scale, env=None):
+    if env is not None:
+        return content_env(rec, scale, env)
     out = [b"BT /F1 1 Tf"]
     g = 0
     intext = True
@@ -304,28 +343,54 @@ def content_of(rec, scale):
     return b"\n".join(out) + b"\n"
 
 
-def pdf_of(recs, scale, S=512):
-    """one document, one page per arrangement"""
-    data, _ = simple_doc([content_of(r, scale) for r in recs], fonts={"F1": square_font()},
-                         mediabox=(0, 0, pt(S, scale), pt(S, scale)),
+def content_env(rec, scale, rotate):
+    """the arrangement on a turned page: every text matrix is the wanted device matrix times the inverse of the page's
+    ctm, so that after the rotation the glyph boxes are the arrangement's (moved ENV_DX to the left)"""
+    _, ctm, _ = env_page(rotate, scale)
+    inv = mat_inv(ctm)
+    out = [b"BT /F1 1 Tf"]
+    g = 0
+    for it in rec["page"]:
+        x0, y0, x1, y1 = (Fraction(pt(c, scale)) for c in it["bb"])
+        x0 -= Fraction(pt(ENV_DX, scale))
+        x1 -= Fraction(pt(ENV_DX, scale))
+        if it["k"] != "c":
+            raise MachineryError("page environments are for text-only arrangements")
+        g += 1
+        t = glyph_text(it["t"], g, pdf=True).encode("ascii").replace(b"\n", PDF_LF)
+        tm = mat_mult((x1 - x0, 0, 0, y1 - y0, x0, y0), inv)
+        if mat_mult(tm, tuple(Fraction(v) for v in ctm)) != (x1 - x0, 0, 0, y1 - y0, x0, y0):
+            raise MachineryError("realiser self-check: text matrix times ctm is not the wanted glyph matrix")
+        out.append(b"%s %s %s %s %s %s Tm (%s) Tj" % (tuple(num(v) for v in tm) + (t,)))
+    out.append(b"ET")
+    return b"\n".join(out) + b"\n"
+
+
+def pdf_of(recs, scale, S=512, env=None):
+    """one document, one page per arrangement (env: /Rotate value of a page environment)"""
+    mb = (0, 0, pt(S, scale), pt(S, scale)) if env is None else env_page(env, scale)[0]
+    data, _ = simple_doc([content_of(r, scale, env) for r in recs], fonts={"F1": square_font()}, mediabox=mb,
+                         page_extra=None if env is None else {"Rotate": env},
                          extra_objects={TOUNICODE_OBJ: Stream({}, TOUNICODE)})
     return data
 
 
-def match_chars(ltpage_objs, rec, scale):
+def match_chars(ltpage_objs, rec, scale, dx=0):
     """identify the LTChar objects of a PDF-derived page with the model's glyph ids (by text and bbox, in order)"""
     want = []
     g = 0
     for it in rec["page"]:
         if it["k"] == "c":
             g += 1
-            want.append((glyph_text(it["t"], g, pdf=True), tuple(pt(c, scale) for c in it["bb"])))
+            b = it["bb"]
+            want.append((glyph_text(it["t"], g, pdf=True), tuple(pt(c, scale) for c in (b[0] - dx, b[1], b[2] - dx, b[3]))))
     return want
 
 
-def project_pdf_page(ltpage, rec, scale):
-    """projection of an extract_pages page; glyphs are identified by (text, bbox), other items by their order"""
-    want = match_chars(ltpage, rec, scale)
+def project_pdf_page(ltpage, rec, scale, dx=0, chars_out=None):
+    """projection of an extract_pages page; glyphs are identified by (text, bbox), other items by their order.
+    dx: the page shows the arrangement moved dx units to the left; chars_out: list that receives (glyph id, LTChar)"""
+    want = match_chars(ltpage, rec, scale, dx)
     free = {}
     for i, w in enumerate(want):
         free.setdefault(w, []).append(i + 1)
@@ -336,6 +401,8 @@ def project_pdf_page(ltpage, rec, scale):
         lst = free.get(k)
         if not lst:
             return ("unknown", repr(ch))
+        if chars_out is not None:
+            chars_out.append((lst[0], ch))
         return lst.pop(0)
 
     others = [i + 1 for i, it in enumerate(rec["page"]) if it["k"] != "c"]
@@ -349,11 +416,11 @@ def project_pdf_page(ltpage, rec, scale):
                 items.append(0 if t == " " else -1 if t == "\n" else ("anno", t))
             else:
                 items.append(take(o))
-        return ("V" if isinstance(line, LTTextLineVertical) else "H", tuple(items), bb_units(line, scale))
+        return ("V" if isinstance(line, LTTextLineVertical) else "H", tuple(items), bb_units(line, scale, dx))
 
     for o in ltpage:
         if isinstance(o, LTTextBox):
-            out.append(("box", "V" if isinstance(o, LTTextBoxVertical) else "H", o.index, bb_units(o, scale),
+            out.append(("box", "V" if isinstance(o, LTTextBoxVertical) else "H", o.index, bb_units(o, scale, dx),
                         tuple(pl(ln) for ln in o)))
         elif isinstance(o, LTTextLine):
             out.append(("empty", pl(o)))
